@@ -14,28 +14,87 @@ section
 variable (heads : ℝ → ℝ × ℝ)
 
 /-- pump head below system head at the minimum-friction flow ⇒ OperatingPointError -/
-theorem C10_infeasible (s p qimin qlast : ℝ) (h : s > p) :
-    (match findOp heads s p qimin qlast with | .operatingPointError => True | .flow _ => False) := by
-  unfold findOp; simp only; rw [if_pos h]; trivial
+theorem C10_infeasible (s p qimin qlast : ℝ) (b : Outcome ℝ) (h : s > p) :
+    (match findOp heads s p qimin qlast b with | .operatingPointError => True | .flow _ => False) := by
+  unfold findOp; rw [if_pos h]; trivial
 
-/-- in every case the result is OperatingPointError, or a flow r that is the root of a CONVERGED secant run on the head gap started at qimin and
-the midpoint AND at which system and pump head agree within 1e-6 relative -/
-theorem C10_shape (s p qimin qlast : ℝ) :
-    (match findOp heads s p qimin qlast with
+theorem headsOk_iff (r : ℝ) : headsOk heads r = true ↔
+    |(heads r).1 - (heads r).2| ≤ 1e-6 * max (max |(heads r).1| |(heads r).2|) 1 := by
+  simp only [headsOk, Transc.abs, pyMax_eq_max, sci_one, decide_eq_true_eq]
+
+theorem fallback_shape (qlast : ℝ) (b : Outcome ℝ) :
+    (match fallback heads qlast b with
      | .operatingPointError => True
-     | .flow r => secant (fun q => (heads q).1 - (heads q).2) 1.48e-8 50 qimin ((qimin + qlast) / 2.0) = Outcome.converged r ∧ ¬ s > p ∧
-        |(heads r).1 - (heads r).2| ≤ 1e-6 * max (max |(heads r).1| |(heads r).2|) 1) := by
-  unfold findOp
-  simp only
-  split_ifs with h
-  · trivial
-  · cases hs : secant (fun q => (heads q).1 - (heads q).2) (1.48e-8) 50 qimin ((qimin + qlast) / 2.0) with
-    | converged r =>
-      simp only [Transc.abs, pyMax_eq_max, sci_one]
-      split_ifs with hr
-      · exact ⟨rfl, h, hr⟩
-      · trivial
+     | .flow r => |(heads r).1 - (heads r).2| ≤ 1e-6 * max (max |(heads r).1| |(heads r).2|) 1 ∧
+         b = Outcome.converged r ∧ (heads qlast).1 - (heads qlast).2 > 0) := by
+  unfold fallback
+  by_cases hg : (heads qlast).1 - (heads qlast).2 > 0.0
+  · rw [if_pos hg]
+    cases b with
+    | converged r' =>
+      simp only
+      by_cases hr' : headsOk heads r' = true
+      · rw [if_pos hr']; exact ⟨(headsOk_iff heads r').1 hr', rfl, by simpa [sci_zero] using hg⟩
+      · rw [if_neg hr']; trivial
     | notConverged l => trivial
+  · rw [if_neg hg]; trivial
+
+/-- in every case the result is OperatingPointError, or a flow r at which system and pump head agree within 1e-6 relative, and r is either the root
+of a CONVERGED secant run on the head gap started at qimin and the midpoint, or (only when that did not deliver and the system curve is above the
+pump curve at the largest flow) the converged outcome of the bracketing solver -/
+theorem C10_shape (s p qimin qlast : ℝ) (b : Outcome ℝ) :
+    (match findOp heads s p qimin qlast b with
+     | .operatingPointError => True
+     | .flow r => ¬ s > p ∧ |(heads r).1 - (heads r).2| ≤ 1e-6 * max (max |(heads r).1| |(heads r).2|) 1 ∧
+        (secant (fun q => (heads q).1 - (heads q).2) 1.48e-8 50 qimin ((qimin + qlast) / 2.0) = Outcome.converged r ∨
+         (b = Outcome.converged r ∧ (heads qlast).1 - (heads qlast).2 > 0))) := by
+  have fb := fallback_shape heads qlast b
+  unfold findOp firstAttempt
+  by_cases h : s > p
+  · rw [if_pos h]; trivial
+  · rw [if_neg h]
+    cases hs : secant (fun q => (heads q).1 - (heads q).2) (1.48e-8) 50 qimin ((qimin + qlast) / 2.0) with
+    | converged r =>
+      simp only
+      by_cases hr : headsOk heads r = true
+      · rw [if_pos hr]; exact ⟨h, (headsOk_iff heads r).1 hr, Or.inl rfl⟩
+      · rw [if_neg hr]; simp only
+        cases hf : fallback heads qlast b with
+        | operatingPointError => trivial
+        | flow r' => rw [hf] at fb; exact ⟨h, fb.1, Or.inr fb.2⟩
+    | notConverged l =>
+      simp only
+      cases hf : fallback heads qlast b with
+      | operatingPointError => trivial
+      | flow r' => rw [hf] at fb; exact ⟨h, fb.1, Or.inr fb.2⟩
+
+/-- the bracketing outcome matters exactly when `consultsBracket` says the solver is called: otherwise the result does not depend on it -/
+theorem C10_bracket_irrelevant (s p qimin qlast : ℝ) (b b' : Outcome ℝ) (h : consultsBracket heads s p qimin qlast = false) :
+    findOp heads s p qimin qlast b = findOp heads s p qimin qlast b' := by
+  unfold consultsBracket at h
+  unfold findOp
+  by_cases hsp : s > p
+  · rw [if_pos hsp, if_pos hsp]
+  · rw [if_neg hsp] at h
+    rw [if_neg hsp, if_neg hsp]
+    cases hf : firstAttempt heads qimin qlast with
+    | some r => rfl
+    | none =>
+      rw [hf] at h
+      simp only [decide_eq_false_iff_not] at h
+      unfold fallback
+      rw [if_neg h, if_neg h]
+
+/-- the bracketing solver is consulted only after the secant failed: when the secant converges to a flow that passes the heads test, that flow is returned
+whatever the bracketing outcome would be -/
+theorem C10_secant_first (s p qimin qlast r : ℝ) (b : Outcome ℝ) (h : ¬ s > p)
+    (hs : secant (fun q => (heads q).1 - (heads q).2) 1.48e-8 50 qimin ((qimin + qlast) / 2.0) = Outcome.converged r)
+    (hr : |(heads r).1 - (heads r).2| ≤ 1e-6 * max (max |(heads r).1| |(heads r).2|) 1) :
+    findOp heads s p qimin qlast b = .flow r := by
+  unfold findOp firstAttempt
+  rw [if_neg h, hs]
+  simp only
+  rw [if_pos ((headsOk_iff heads r).2 hr)]
 
 end
 
